@@ -19,7 +19,8 @@ RULE = ('LLE: Hypothesis draws Water + one partially miscible organic (12 alcoho
         'from thermo.Gamma evaluated by the check; scaled feed gives proportional flows; w_top(L) >= w_top(l); '
         'use_cache=True on the stream equals use_cache=False on an identically treated clone; both equal a '
         'history-free stream holding the same material; 48 quick cases repeat the cache/history comparison with '
-        'shgo / differential evolution on 3 chemicals after one earlier call sharing one mole fraction. SLE: solute (Tetradecanol, LacticAcid, AceticAcid, Glucose '
+        'shgo / differential evolution on 3 chemicals (two thirds with water in 2.5-5x molar excess over the organic) '
+        'after one earlier call sharing one mole fraction; any exception escaping these calls is a violation. SLE: solute (Tetradecanol, LacticAcid, AceticAcid, Glucose '
         'with the doctest Cn models, Phenol, Naphthalene, Dodecanol) in a package with 1-3 solvents (a mixture always '
         'has a liquid solvent, a fifth of the cases is the solute alone) and optionally a second solute, ideal or '
         'Dortmund activity model, T in [250,450] K or H of such '
@@ -44,6 +45,7 @@ REQUIRED_CELLS = {'quick': ['lle:two_liquids', 'lle:one_liquid', 'lle:top=presen
                             'lle.hist:mem=none,dT=same,dz=diff', 'lle.hist:mem=none,dT=higher,dz=diff',
                             'lle.hist:mem=K,dT=lower,dz=same', 'lle.hist:step-shares-a-fraction',
                             'lle.hist:mem=K,dT=same,dz=share', 'lle.ghist:method=shgo,dT=same,dz=share',
+                            'lle.ghist:heaviest-chemical-below-half-of-most-abundant',
                             'sle:pure', 'sle:solubility-clause-applied:nonideal=0',
                             'sle.hist:spec=T,sol=computed,hist=plain', 'sle.hist:spec=H,sol=computed,hist=plain',
                             'sle.hist:spec=T,sol=given,hist=plain', 'sle.hist:spec=T,sol=computed,hist=pure'],
@@ -598,9 +600,22 @@ def prop_lle_global_history(ch, ctx):
     method = ch.choice('method', ['shgo', 'shgo', 'differential evolution'])
     mtag = 'shgo' if method == 'shgo' else 'de'
     T = ch.float('T', T_LO, T_HI)
-    # fixed multipliers keep Hypothesis' all-minimal first example (every shard starts with it) a real
-    # shared-fraction case: feed 1 : 0.6 : 0.25, earlier call 1 : 0.2125 : 0.6375
-    feed = np.array([ch.logfloat(f'feed.f{i}', -1.0, 1.0) for i in range(3)]) * np.array([1.0, 0.6, 0.25])
+    # Two feed families.  'water-excess' (2 in 3, and Hypothesis' all-minimal first example that every shard starts
+    # with): water in 2.5-5x molar excess over the organic plus a little co-solvent, so the chemical with the largest
+    # MASS (the one whose bound the global methods halve) is not the one with the most MOLES; 'free': independent
+    # amounts.  Fixed multipliers keep the minimal example a real shared-fraction case.
+    fk = ch.choice('feed.kind', ['water-excess', 'water-excess', 'free'])
+    if fk == 'water-excess':
+        w = ch.logfloat('feed.water', -1.0, 1.0)
+        o = w / ch.float('feed.excess', 2.5, 5.0)
+        amount = {'Water': w, org: o, co: o * ch.choice('feed.cosolvent', [0.2, 0.5, 0.05])}
+        feed = np.array([amount[n] for n in names])
+    else:
+        feed = np.array([ch.logfloat(f'feed.f{i}', -1.0, 1.0) for i in range(3)]) * np.array([1.0, 0.6, 0.25])
+    ctx.cell(f'lle.ghist:feed={fk}')
+    MWs = th.chemicals.MW
+    if int(np.argmax(feed * MWs)) != int(np.argmax(feed)) and feed[int(np.argmax(feed * MWs))] < 0.5 * feed.max():
+        ctx.cell('lle.ghist:heaviest-chemical-below-half-of-most-abundant')
     top = ch.choice('top', [None] + names)
     hk = ch.choice('h.comp', ['share', 'share', 'share', 'other'])
     hfeed = draw_shared(ch, 'h', feed) if hk == 'share' else None
@@ -617,14 +632,12 @@ def prop_lle_global_history(ch, ctx):
         x.imol['l'] = np.array(fd, float)
         x.lle.method = method
         return x
+    # an arithmetic (or any other) exception escaping lle() on these in-domain feeds is a violation, here too: the
+    # earlier call is a first call on a fresh stream, the reference call likewise
     s, c = fresh(hfeed, hT), fresh(hfeed, hT)
     for x in (s, c):
-        try:
-            x.lle(hT, top_chemical=htop)
-        except Exception as e:
-            ctx.reject(f'history step raised {type(e).__name__} (lle_global reports exceptions)')
+        ctx.call('lle.call', lambda: x.lle(hT, top_chemical=htop), region=f'method={mtag},hist=0')
         put_feed(x, feed, [1.0, 1.0, 1.0])
-    h_l, h_L = s.imol['l'].to_array(), s.imol['L'].to_array()
     present = (1, 1, 1)
     last = (present, hT, hfeed / hfeed.sum(), True, '')
     _, dT, dz = relation(last, present, T, feed / F)
@@ -633,14 +646,15 @@ def prop_lle_global_history(ch, ctx):
     reg = f'method={mtag},dT={dT},dz={dz}'
     ctx.cell(f'lle.ghist:{reg}')
     f = fresh(feed, T)
-    try:
-        f.lle(T, top_chemical=top)
-    except Exception as e:
-        ctx.reject(f'history-free call raised {type(e).__name__} (lle_global reports exceptions)')
+    ctx.call('lle.call', lambda: f.lle(T, top_chemical=top), region=f'method={mtag},hist=0')
     rf = split_of(f)
     rs = lle_call(ctx, s, T, None, top, True, f'{reg},hist=1,cache=1')
     rc = lle_call(ctx, c, T, None, top, False, f'{reg},hist=1,cache=0')
     fails = Failures(ctx)
+    for tag, r in (('hist=0', rf), ('hist=1,cache=1', rs), ('hist=1,cache=0', rc)):
+        fails.check(min(r[0].min(), r[1].min()) >= -1e-12 * F and np.allclose(r[0] + r[1], feed, rtol=1e-9, atol=1e-12 * F),
+                    f'lle.balance|method={mtag},{tag}|mismatch',
+                    lambda: f'negative or unbalanced flows l={r[0].tolist()} L={r[1].tolist()} feed={feed.tolist()}')
     ordered = top is not None
     desc = lambda: f'{names} method={method} earlier call feed={hfeed.tolist()} T={hT} top={htop}; final feed={feed.tolist()} T={T} top={top}'
     triv = {id(r): trivial_split(r[0], r[1], feed) for r in (rs, rc, rf)}
